@@ -72,6 +72,19 @@ pub fn decode_oracle(v: &[u8], st: &mut Stats) {
 pub fn trail5e_char(c: char) -> bool { !c.is_ascii() && LETTERS.iter().any(|l| enc_one(lfs_encoding(*l), c).map(|w| w.len() == 2 && w[1] == 0x5e).unwrap_or(false)) }
 
 // ---------------------------------------------------------------- C12
+/// the encoding_rs tables of the ten LFS codepages in the format the model driver reads (E letter scalar bytes / D letter bytes scalar)
+fn dump_tables(dir: &str) {
+    use std::io::Write as _;
+    let mut tf = std::io::BufWriter::new(std::fs::File::create(format!("{dir}/tables.txt")).unwrap());
+    let encs: Vec<(char, &'static Encoding)> = LETTERS.iter().map(|l| (*l, lfs_encoding(*l))).collect();
+    for (l, e) in &encs { for cp in 0x80u32..0x30000 { if let Some(c) = char::from_u32(cp) { if let Some(w) = enc_one(e, c) { if !w.is_empty() && w[0] >= 0x80 { let _ = writeln!(tf, "E {} {} {}", *l as u32, cp, hex(&w)); } } } } }
+    for (l, e) in encs.iter().cloned().chain([('8', encoding_rs::WINDOWS_1252)]) {
+        for b in 0x80..=0xffu32 { let arr = [b as u8]; let (d, err) = e.decode_without_bom_handling(&arr); let mut it = d.chars(); if let (false, Some(c), None) = (err, it.next(), it.next()) { let _ = writeln!(tf, "D {} {:02x} {}", l as u32, b, c as u32); } }
+        if !e.is_single_byte() { for a in 0x81..=0xfeu32 { for b in 0x40..=0xfeu32 { let arr = [a as u8, b as u8]; let (d, err) = e.decode_without_bom_handling(&arr); let cs: Vec<char> = d.chars().collect(); let lead_alone = e.decode_without_bom_handling(&[a as u8]).1; if !err && (cs.len() == 1 || (cs.len() == 2 && lead_alone)) && !cs.contains(&'\u{fffd}') { let _ = writeln!(tf, "D {} {:02x}{:02x} {}", l as u32, a, b, cs.iter().map(|c| (*c as u32).to_string()).collect::<Vec<_>>().join("+")); } } } }
+    }
+    tf.flush().unwrap();
+}
+
 pub fn run_c12(a: &Args) {
     let check = |s: &str, st: &mut Stats| -> (String, String, String) {
         let id = cps(s);
@@ -100,6 +113,10 @@ pub fn run_c12(a: &Args) {
     if let Some(r) = &a.replay { let s: String = if r == "-" { String::new() } else { r.split(',').map(|x| char::from_u32(u32::from_str_radix(x, 16).unwrap()).unwrap()).collect() }; let mut st = Stats::default(); let _ = check(&s, &mut st); if st.failures_total > 0 { println!("FAIL [{}] {}", st.failures[0].0, st.failures[0].1); std::process::exit(1) } else { println!("PASS"); return } }
     let mut rng = Rng::new(a.seed);
     let mut st = Stats::default(); let mut out = Out::new(&a.out);
+    // the wire composition theorem rests on the scanner's lead-byte classification agreeing with the code tables: checked by the model
+    // driver over every table entry (the same hypothesis check as in C10)
+    std::fs::create_dir_all(&a.out).unwrap(); dump_tables(&a.out);
+    out.case("oraclecheck", "oracle lead2:0 lead1:0 prop:0");
     // exhaustive over an alphabet of character-class representatives
     let alpha: Vec<char> = vec!['^', '1', '8', 'v', 'a', '|', '*', '#', '\\', 'L', 'K', 'x', ' ', 'é', '日', '\u{b2}', '\u{ff12}'];
     let maxlen = if a.thorough() { 6 } else { 4 };
@@ -126,8 +143,8 @@ pub fn run_c12(a: &Args) {
     // segment strings: runs in different scripts (Latin-1 letters whose bytes are lead bytes of the CJK codepages included) joined by
     // colour codes (^8 resets the codepage), carets, escaped characters and codepage letters: every sequence of up to 4 segments of
     // one pool, then random longer ones
-    let segs: Vec<&str> = vec!["\u{b2}", "\u{ff12}", "\u{bd}", "\u{663}", "\u{7f8e}", "\u{e9}", "\u{e9}\u{e0}", "\u{448}", "^8", "^1", "^", "L", "J", "\u{ff8f}", "a", "|", "\u{3b1}", "\u{e9}\u{e0}\u{fc}"];
-    let smax = if a.thorough() { 5 } else { 4 };
+    let segs: Vec<&str> = vec!["\u{9348}", "\u{fa16}", "^9", "\u{15e}", "\u{45e}", "\u{b2}", "\u{ff12}", "\u{bd}", "\u{663}", "\u{7f8e}", "\u{e9}", "\u{e9}\u{e0}", "\u{448}", "^8", "^1", "^", "L", "J", "\u{ff8f}", "a", "|", "\u{3b1}", "\u{e9}\u{e0}\u{fc}"];
+    let smax = if a.thorough() { 4 } else { 3 };
     let mut sidx: Vec<usize> = vec![];
     loop {
         let s: String = sidx.iter().map(|i| segs[*i]).collect();
@@ -138,8 +155,8 @@ pub fn run_c12(a: &Args) {
         if sidx.len() > smax { break; }
     }
     st.exhaustive.push(format!("all sequences of <= {smax} segments over a {}-segment pool (CJK, Latin-1 runs of length 1-3 in the CJK lead-byte ranges, Cyrillic, Greek, half-width kana, ^8, ^1, caret, codepage letters, reserved character)", segs.len()));
-    for _ in 0..(if a.thorough() { 100_000 } else { 10_000 }) {
-        let n = rng.range(3, 9) as usize;
+    for _ in 0..(if a.thorough() { 400_000 } else { 60_000 }) {
+        let n = rng.range(3, 7) as usize;
         let s: String = (0..n).map(|_| *rng.pick(&segs)).collect();
         let _ = check(&s, &mut st); st.evaluations += 1; st.bump("segment strings");
     }
@@ -180,7 +197,7 @@ pub fn run_c10(a: &Args) {
     // --- 1. the table the implementation uses for each marker letter is LFS's Windows codepage (observed through the public decoder)
     let ms: HashMap<(char, Vec<u8>), char> = std::fs::read_to_string(format!("{}/../ms_tables.txt", a.out)).unwrap_or_default().lines().filter_map(|l| { let t: Vec<&str> = l.split(' ').collect(); if t.len() == 3 { Some(((t[0].parse::<u8>().ok()? as char, unhex(t[1])), char::from_u32(t[2].parse().ok()?)?)) } else { None } }).collect();
     if ms.is_empty() { st.notes.push("Microsoft table dump (tools/ms_tables.py) not available: the independent table oracle was skipped".into()); }
-    let mut deltas: HashMap<char, u64> = HashMap::new(); let mut compared = 0u64;
+    let mut deltas: std::collections::BTreeMap<char, u64> = std::collections::BTreeMap::new(); let mut compared = 0u64;
     for ((letter, bytes), want) in &ms {
         if bytes.contains(&0x5e) && bytes.len() == 2 { /* still compared: the decoder is given the pair after a marker, no following letter */ }
         compared += 1; st.evaluations += 1;
@@ -204,7 +221,7 @@ pub fn run_c10(a: &Args) {
 
     // --- 2. the oracle hypotheses of the Coq model, on encoding_rs itself, and the model's tables
     let mut tf = std::io::BufWriter::new(std::fs::File::create(format!("{}/tables.txt", a.out)).unwrap());
-    let mut pools: HashMap<char, Vec<char>> = HashMap::new();
+    let mut pools: std::collections::BTreeMap<char, Vec<char>> = std::collections::BTreeMap::new();   // ordered: the random strings drawn from it must depend on the seed only
     let step = if a.thorough() { 1 } else { 1 };
     for (l, e) in &encs {
         let mut cp = 0x80u32;
@@ -229,7 +246,7 @@ pub fn run_c10(a: &Args) {
     // decoder tables: every single byte and every byte pair that decodes to exactly one character
     for (l, e) in encs.iter().cloned().chain([('8', encoding_rs::WINDOWS_1252)]) {
         for b in 0x80..=0xffu32 { let arr = [b as u8]; let (d, err) = e.decode_without_bom_handling(&arr); let mut it = d.chars(); if let (false, Some(c), None) = (err, it.next(), it.next()) { let _ = writeln!(tf, "D {} {:02x} {}", l as u32, b, c as u32); } }
-        if !e.is_single_byte() { for a in 0x81..=0xfeu32 { for b in 0x40..=0xfeu32 { let arr = [a as u8, b as u8]; let (d, err) = e.decode_without_bom_handling(&arr); let mut it = d.chars(); if let (false, Some(c), None) = (err, it.next(), it.next()) { let _ = writeln!(tf, "D {} {:02x}{:02x} {}", l as u32, a, b, c as u32); } } } }
+        if !e.is_single_byte() { for a in 0x81..=0xfeu32 { for b in 0x40..=0xfeu32 { let arr = [a as u8, b as u8]; let (d, err) = e.decode_without_bom_handling(&arr); let cs: Vec<char> = d.chars().collect(); let lead_alone = e.decode_without_bom_handling(&[a as u8]).1; if !err && (cs.len() == 1 || (cs.len() == 2 && lead_alone)) && !cs.contains(&'\u{fffd}') { let _ = writeln!(tf, "D {} {:02x}{:02x} {}", l as u32, a, b, cs.iter().map(|c| (*c as u32).to_string()).collect::<Vec<_>>().join("+")); } } } }
     }
     tf.flush().unwrap(); drop(tf);
     // the model driver checks the lead-byte / ^8 hypotheses of the round-trip theorem against these tables
@@ -295,6 +312,8 @@ pub fn run_c10(a: &Args) {
         let mut v: Vec<u8> = vec![];
         for _ in 0..rng.range(1, 4) {
             if rng.chance(4, 5) { v.push(b'^'); v.push(*rng.pick(MARKERS.as_bytes())); if rng.chance(1, 8) { v.push(b'^'); v.push(*rng.pick(MARKERS.as_bytes())); } }
+            // a colour code (^0..^9) in the middle of a segment: only ^8 may change the codepage
+            if rng.chance(1, 3) { let c0 = v.iter().rposition(|b| *b == b'^').and_then(|i| v.get(i + 1)).map(|l| if *l == b'8' { 'L' } else { *l as char }).unwrap_or('L'); if let Some(p) = pools.get(&c0) { let c = *rng.pick(p); if let Some(w) = enc_one(lfs_encoding(c0), c) { v.extend(&w); v.push(b'^'); v.push(b'0' + rng.below(10) as u8); if v[v.len() - 1] != b'8' { v.extend(&w); } } } }
             let cur = v.iter().rposition(|b| *b == b'^').and_then(|i| v.get(i + 1)).map(|l| if *l == b'8' { 'L' } else { *l as char }).unwrap_or('L');
             if let Some(p) = pools.get(&cur) { for _ in 0..rng.range(0, 4) { if rng.chance(1, 3) { v.push(rng.range(0x20, 0x7e) as u8); } else { let c = *rng.pick(p); if let Some(w) = enc_one(lfs_encoding(cur), c) { v.extend(w); } } } }
         }
